@@ -8,6 +8,7 @@ import (
 	"context"
 	"fmt"
 	"math/big"
+	"reflect"
 	"strings"
 	"sync"
 	"sync/atomic"
@@ -412,3 +413,69 @@ func (v *VerifPM) FastSyncEnabled() bool { return atomic.LoadUint32(&v.pm.fastSy
 
 // FastHeight is the number of the current fast block (header + body + receipts known).
 func (v *VerifPM) FastHeight() uint64 { return v.pm.blockchain.CurrentFastBlock().NumberU64() }
+
+// ---- decode targets of handleMsg, by message code (C17 deepening round)
+
+// VerifMsgType is the Go type a handleMsg branch decodes the payload into.
+// Kind: "typed" (msg.Decode(&v) of Type), "hash-stream" (rlp stream of hashes read
+// lazily up to the fetch limit), "custom" (a hand-written DecodeRLP: described by the
+// harness model, not by reflection).
+type VerifMsgType struct {
+	Code uint64
+	Name string
+	Kind string
+	Type reflect.Type
+}
+
+func VerifMsgTypes() []VerifMsgType {
+	return []VerifMsgType{
+		{StatusMsg, "Status", "typed", reflect.TypeOf(statusData{})},
+		{NewBlockHashesMsg, "NewBlockHashes", "typed", reflect.TypeOf(newBlockHashesData{})},
+		{TxMsg, "Transactions", "typed", reflect.TypeOf([]*types.Transaction{})},
+		{GetBlockHeadersMsg, "GetBlockHeaders", "custom", reflect.TypeOf(getBlockHeadersData{})},
+		{BlockHeadersMsg, "BlockHeaders", "typed", reflect.TypeOf([]*types.Header{})},
+		{GetBlockBodiesMsg, "GetBlockBodies", "hash-stream", reflect.TypeOf([]common.Hash{})},
+		{BlockBodiesMsg, "BlockBodies", "typed", reflect.TypeOf(blockBodiesData{})},
+		{NewBlockMsg, "NewBlock", "typed", reflect.TypeOf(newBlockData{})},
+		{GetNodeDataMsg, "GetNodeData", "hash-stream", reflect.TypeOf([]common.Hash{})},
+		{NodeDataMsg, "NodeData", "typed", reflect.TypeOf([][]byte{})},
+		{GetReceiptsMsg, "GetReceipts", "hash-stream", reflect.TypeOf([]common.Hash{})},
+		{ReceiptsMsg, "Receipts", "typed", reflect.TypeOf([][]*types.Receipt{})},
+	}
+}
+
+// VerifKnownLimits: the per-peer known-set caps of aqua/peer.go.
+func VerifKnownLimits() (int, int) { return maxKnownTxs, maxKnownBlocks }
+
+// SetAcceptTxs marks the initial sync as done, so that TxMsg payloads are decoded (handleMsg
+// ignores transactions until then).
+func (v *VerifPM) SetAcceptTxs() { atomic.StoreUint32(&v.pm.acceptTxs, 1) }
+
+// VerifKnownAfter: cardinality of a fresh peer's known-transaction (or known-block) set after
+// marking n distinct hashes and then the last one again (MarkTransaction / MarkBlock).
+func VerifKnownAfter(n int, blocks bool) (afterDistinct, afterRepeat int) {
+	var id discover.NodeID
+	p := newPeer(aqua65, p2p.NewPeer(id, "known", nil), nil)
+	var h common.Hash
+	for i := 0; i < n; i++ {
+		h = common.BigToHash(big.NewInt(int64(i + 1)))
+		if blocks {
+			p.MarkBlock(h)
+		} else {
+			p.MarkTransaction(h)
+		}
+	}
+	set := p.knownTxs
+	if blocks {
+		set = p.knownBlocks
+	}
+	afterDistinct = set.Cardinality()
+	if n > 0 {
+		if blocks {
+			p.MarkBlock(h)
+		} else {
+			p.MarkTransaction(h)
+		}
+	}
+	return afterDistinct, set.Cardinality()
+}
